@@ -67,6 +67,7 @@ func (e *env) pipePhase() (ok bool) {
 	for _, n := range []uint{1, 2} {
 		b, err := tbench.Start(tbench.Config{
 			Handler:        gatedHandler(),
+			Metrics:        newProdMetrics(&tbench.CountingMetrics{}),
 			RequestContext: dnsserver.NewTimeoutContextConstructor(pipeCtxTimeout),
 			Only:           []tbench.Server{tbench.SrvDNS, tbench.SrvDoT},
 			DNS:            tbench.StreamOptions{MaxPipelineEnabled: true, MaxPipelineCount: n, ReadTimeout: serverReadTimeout},
